@@ -524,12 +524,68 @@ def ldu(load_v, name):
                 'a rebuilt loop node must carry over the %s annotation on every '
                 'path' % key, {'returns_without_copy': bad}, line=fn.node.lineno,
                 witness='set_loop_options in a loop that also has a break')
+      # ... and it must be copied *from the user's loop node* (the handler's
+      # parameter, before it is rebound to the generated statements)
+      srcs = []
+      for c in core.walk_no_nested(fn.node):
+        if isinstance(c, ast.Call) and core.dotted(c.func) == 'anno.copyanno' and \
+            len(c.args) >= 3 and ('anno.Basic.' + key) in core.norm(c.args[2]):
+          e = tpl.expand(fn, c.args[0], c)
+          is_param = isinstance(e, ast.Name) and e.id == fn.params()[0]
+          if is_param:
+            # the name must still denote the parameter where the chain ends
+            chain_at = c
+            cur = c.args[0]
+            for _ in range(6):
+              if not isinstance(cur, ast.Name):
+                break
+              ds = tpl.rdefs(fn.node).reaching(chain_at, cur.id) or []
+              if len(ds) == 1 and isinstance(ds[0], tuple) and ds[0][0] == 'param':
+                break
+              if len(ds) == 1 and isinstance(ds[0], ast.Name):
+                cur, chain_at = ds[0], ds[0]
+                continue
+              is_param = False
+              break
+          srcs.append((core.norm(c.args[0]), is_param))
+      rep.check(bool(srcs) and all(p for _, p in srcs), 'OPTS',
+                '%s:copies(%s)-from-the-user-node' % (fn.site, key),
+                'the %s annotation must be copied from the loop node the user '
+                'wrote; a name that has been rebound to the generated statements '
+                'carries no annotation and the copy silently does nothing' % key,
+                {'sources': srcs}, line=fn.node.lineno,
+                witness='while loop with set_loop_options and a break')
   pres = model.func(TPL, 'ReplaceTransformer.__init__')
   src = core.norm(pres.node)
   rep.check('anno.Basic.DIRECTIVES' in src and 'anno.Basic.EXTRA_LOOP_TEST' in src,
             'OPTS', '%s:preserved_annos' % pres.site,
             'template replacement must preserve DIRECTIVES and EXTRA_LOOP_TEST',
             line=pres.node.lineno)
+
+  # directive arguments: every argument the user passed, positionally or by
+  # keyword, is kept; only parameters left at UNSPECIFIED are dropped
+  ma = model.func(DIRS, '_map_args')
+  rets = [r for r in core.walk_no_nested(ma.node) if isinstance(r, ast.Return)]
+  ok = len(rets) == 1 and isinstance(rets[0].value, ast.DictComp)
+  facts = {}
+  if ok:
+    dc = rets[0].value
+    g0 = dc.generators[0]
+    src = tpl.xnorm(ma, g0.iter, rets[0].value)
+    facts['iterates'] = src
+    facts['conditions'] = [core.norm(i) for i in g0.ifs]
+    ok = len(dc.generators) == 1 and src.startswith('inspect.getcallargs(') and \
+        src.endswith('.items()') and isinstance(g0.target, ast.Tuple) and \
+        len(g0.target.elts) == 2 and core.norm(dc.key) == core.norm(g0.target.elts[0]) \
+        and core.norm(dc.value) == core.norm(g0.target.elts[1]) and len(g0.ifs) == 1 \
+        and pat.match('%s is not directives.UNSPECIFIED' % core.norm(g0.target.elts[1]),
+                      g0.ifs[0]) is not None
+  rep.check(ok, 'OPTS', '%s:keeps-every-specified-argument' % ma.site,
+            'the directive annotation must hold every bound argument of the '
+            'directive call except those left at UNSPECIFIED', facts,
+            line=ma.node.lineno,
+            witness='set_loop_options(8, maximum_iterations=n): the positional '
+            'argument must reach the loop options')
 
   # ---------------------------------------------------------------- SHARED-MUT
   rules_shared.selftest()
